@@ -15,6 +15,7 @@ from collections import Counter
 from .. import tree
 from .. import rulesets as R
 from .. import session as S
+from ..runner import step_deadline, StepTimeout
 from . import queue_common as Q
 from . import queue_disk as D
 
@@ -159,7 +160,13 @@ def explore_mem(mods, types, base, acc, pick=None):
     for p in (pick(nodes) if pick else nodes):
         acc.states += 1
         try:
-            Rp = drain(PcfgQueue(g, save_config(p)), 2 * total + 5)
+            # (one node = one restore + one complete resumed stream.  Today's code needs about 2 s for the largest ruleset of the deep layer and
+            # milliseconds elsewhere; a restore walk that has lost its pruning needs hours there: after 300 s the node is reported instead of waited for)
+            with step_deadline(300):
+                Rp = drain(PcfgQueue(g, save_config(p)), 2 * total + 5)
+        except StepTimeout:
+            fails.append((p, 'runaway: restoring the queue at this position and draining it did not end within 300 s (grid of %d pre-terminals)' % total))
+            break
         except Exception as e:
             fails.append((p, 'crash: restoring / draining the queue raised %r' % (e,)))
             break
